@@ -105,8 +105,25 @@ def str_tok(s: str) -> str:
     return "~" if s == "" else s
 
 
+# A FIRED attempt timeout: the operation hangs and the library itself makes the TimeoutError.  To the model that is
+# the operation raising a TRANSIENT-typed exception (the oracle's answer `raise ordinary:<id>:TRANSIENT d` is taken
+# to mean "hangs; the timeout fires" — see Env._hangs); the library-made object is given that token when it is
+# first seen leaving the library.
+_PENDING_TIMEOUT: list = [None]
+_STRAY_TIMEOUT: list = [False]      # a library-made TimeoutError nobody asked for was seen (real-time stall, sync)
+
+
+def _adopt(e: BaseException) -> None:
+    tok = _PENDING_TIMEOUT[0]
+    if tok is not None and type(e) is TimeoutError and getattr(e, "_tok", None) is None:
+        e._tok = tok  # type: ignore[attr-defined]
+        e._ref = "o" + tok.split(":")[1]  # type: ignore[attr-defined]
+        e._adopted = True  # type: ignore[attr-defined]
+
+
 def exn_tok(e: BaseException) -> str:
     """Canonical token of an exception object as it leaves the library (cf. Wire.exnTok)."""
+    _adopt(e)
     tok = getattr(e, "_tok", None)
     if tok is not None:
         return tok
@@ -131,11 +148,14 @@ def exn_tok(e: BaseException) -> str:
         return "libValueError"
     if isinstance(e, RuntimeError):
         return "libRuntimeError"
+    if type(e) is TimeoutError:
+        _STRAY_TIMEOUT[0] = True
     return "unexpected:" + type(e).__name__
 
 
 def exn_ref(e: BaseException) -> str:
     """Cf. Exn.ref: how an exception object is named when it is an *argument* of a callback."""
+    _adopt(e)
     ref = getattr(e, "_ref", None)
     if ref is not None:
         return ref
@@ -446,6 +466,11 @@ class Env:
         self._wall = random.Random(wall_seed)
         self.wall_seed_bits = wall_seed          # bits 1, 2 choose among equivalent callable forms
         self.reentrant = False                   # see _maybe_nested
+        import threading as _threading
+        self.release = _threading.Event()        # frees worker threads a fired sync attempt timeout abandoned
+        self.main_task = None
+        _PENDING_TIMEOUT[0] = None
+        _STRAY_TIMEOUT[0] = False
         self.depth = 0
         self.built = None
         self.nested_runs: list = []
@@ -469,7 +494,10 @@ class Env:
     def info(self) -> dict:
         el = self.clock.ticks - self.call_start
         return {"elapsed": el, "remaining": self.cfg.deadline - el, "now": self.clock.ticks,
-                "op_count": self.op_count}
+                "op_count": self.op_count,
+                "timeout_fires": bool(self.__dict__.get("timeout_fires") and not self.depth),
+                "timeout_fires_async": bool(self.__dict__.get("timeout_fires") and self.__dict__.get("real_loop")
+                                            and not self.depth)}
 
     def ask(self, req: str, kind: str, extra: dict | None = None, nested_ticks: int = 0) -> Ans:
         info = self.info()
@@ -539,14 +567,36 @@ class Env:
 
     @staticmethod
     def tags(tags: dict) -> str:
-        return " ".join([opt(tags.get("class")), opt(tags.get("err"), str_tok),
+        err = tags.get("err")
+        if err == "TimeoutError" and _PENDING_TIMEOUT[0] is not None:
+            err = "XTRANSIENT"          # the library-made TimeoutError stands for the harness's TimeoutError subclass
+        return " ".join([opt(tags.get("class")), opt(err, str_tok),
                          opt(tags.get("stop_reason")), opt(tags.get("cause")),
                          opt(tags.get("operation"), str_tok), opt(tags.get("state"))])
 
     # -- callbacks -----------------------------------------------------------------------------
+    def _hangs(self, a: Ans) -> bool:
+        """In a case whose attempt timeout FIRES (`timeout_fires`, chosen by wall_seed bits in `build`): an
+        operation answer `raise ordinary:<odd id>:TRANSIENT` means the operation hangs until the library's
+        timeout gives up on it.  A function of (configuration, wall_seed, answer): replays agree."""
+        if not self.__dict__.get("timeout_fires") or self.depth or a.kind != "raise":
+            return False
+        p = a.a.split(":")
+        return p[0] == "ordinary" and p[2] == "TRANSIENT" and int(p[1]) % 2 == 1
+
+    def _hangs_then_cancelled(self, a: Ans) -> bool:
+        """… and (async, real event loop) `raise cancelled` means: the operation hangs, the timeout fires, and the
+        CALLER cancels the run while the timed-out attempt is still unwinding (asynchronous clean-up)."""
+        return bool(self.__dict__.get("timeout_fires") and self.__dict__.get("real_loop") and not self.depth
+                    and a.kind == "raise" and a.a == "cancelled")
+
     def op(self) -> Any:
         self.op_count += 1
         a = self.ask(f"op {self.op_count}", "op", nested_ticks=self._maybe_nested())
+        if self._hangs(a):
+            _PENDING_TIMEOUT[0] = a.a
+            self.release.wait(60)       # (worker thread) the library's timeout abandons us; released after the call
+            return None
         if a.kind == "raise":
             raise self._op_exception(a.a)
         return self._val(a.a)
@@ -611,6 +661,18 @@ class Env:
     async def aop(self) -> Any:
         self.op_count += 1
         a = self.ask(f"op {self.op_count}", "op", nested_ticks=self._maybe_nested())
+        if self._hangs(a) or self._hangs_then_cancelled(a):
+            loop = asyncio.get_running_loop()
+            if a.a == "cancelled":
+                # timeout at +ATTEMPT_TIMEOUT_VIRTUAL, clean-up lasts 2 more: the caller's cancel lands inside it
+                loop.call_later(ATTEMPT_TIMEOUT_VIRTUAL + 1.0, self.main_task.cancel)
+            else:
+                _PENDING_TIMEOUT[0] = a.a
+            try:
+                await asyncio.sleep(1.0e6)
+            finally:
+                await asyncio.sleep(2.0)            # asynchronous clean-up of the abandoned attempt
+            raise AssertionError("a hanging operation was resumed")
         if a.kind == "raise" and a.a.split(":")[0] in ("ordinary", "abort", "exhausted", "circuitOpen"):
             raise self._op_exception(a.a)
         await self._araise_or(a)
@@ -899,8 +961,15 @@ def build(env: Env, cfg: LoopCfg) -> Built:
     if cfg.has("attempt_timeout") and not cfg.has("no_retry") and (not cfg.has("async") or not env.deliver_throw):
         # (async: `asyncio.wait_for` needs a running loop, so those calls are run by `asyncio.run` instead of
         # being driven by hand — possible because nothing suspends when cancellation kinds are simply raised)
-        extra_kwargs["attempt_timeout_s"] = 3600.0
         env.real_loop = cfg.has("async")
+        # a quarter of these cases: a timeout that FIRES when the operation hangs (`Env._hangs`).  Sync: 0.3 s
+        # of REAL time (`future.result(timeout=…)` cannot be virtualised; every other operation answers in
+        # microseconds).  Async: 5 s of the VIRTUAL event-loop clock (`VirtualTimeLoop`), no real waiting.
+        # (sync, where it costs real time: one more bit)
+        env.timeout_fires = (((env.wall_seed_bits >> 14) & 7) == 7 and not env.reentrant
+                             and (env.real_loop or bool(env.wall_seed_bits & (1 << 17))))
+        extra_kwargs["attempt_timeout_s"] = ((ATTEMPT_TIMEOUT_VIRTUAL if env.real_loop else 0.3)
+                                             if env.timeout_fires else 3600.0)
     retry_kwargs: dict[str, Any] = dict(
         **extra_kwargs,
         classifier=env.classifier,
@@ -1044,6 +1113,49 @@ def drive(coro, env: Env):
         return stop.value
 
 
+ATTEMPT_TIMEOUT_VIRTUAL = 5.0
+
+
+class VirtualTimeLoop(asyncio.SelectorEventLoop):
+    """An event loop whose clock moves only when the loop would otherwise block: it jumps to the next timer.
+    (`asyncio.wait_for` timeouts fire deterministically and instantly.)"""
+
+    def __init__(self) -> None:
+        super().__init__()
+        self._vt = 0.0
+        real_select = self._selector.select
+
+        def select(timeout=None):
+            if timeout is not None and timeout > 0:
+                self._vt += timeout
+            return real_select(0)
+
+        self._selector.select = select  # type: ignore[method-assign]
+
+    def time(self) -> float:
+        return self._vt
+
+
+def run_virtual(coro, env: Env):
+    """`asyncio.run` on a VirtualTimeLoop; the call is `env.main_task` (the caller may cancel it)."""
+    loop = VirtualTimeLoop()
+    try:
+        task = loop.create_task(coro)
+        env.main_task = task
+        return loop.run_until_complete(task)
+    finally:
+        env.main_task = None
+        try:
+            left = [t for t in asyncio.all_tasks(loop) if not t.done()]
+            for t in left:
+                t.cancel()
+            if left:
+                loop.run_until_complete(asyncio.gather(*left, return_exceptions=True))
+            loop.run_until_complete(loop.shutdown_asyncgens())
+        finally:
+            loop.close()
+
+
 def outcome_toks(o: RetryOutcome) -> str:
     return " ".join([
         "outcome", "1" if o.ok else "0", ("0" if o.ok and o.value is None else opt(o.value, lambda v: str(v.vid))),
@@ -1098,6 +1210,15 @@ def _long_lived_context(env: Env, built: Built, cfg: LoopCfg, ctx_kwargs: dict):
 
 def run_step(env: Env, built: Built, cfg: LoopCfg, which: str) -> StepResult:
     """Perform one call (`which` in {'call','execute'}) on the built object."""
+    try:
+        return _run_step(env, built, cfg, which)
+    finally:
+        env.release.set()               # worker threads of fired sync timeouts may finish now
+        import threading as _threading
+        env.release = _threading.Event()
+
+
+def _run_step(env: Env, built: Built, cfg: LoopCfg, which: str) -> StepResult:
     env.op_count = 0
     env.call_start = env.clock.ticks
     is_async = cfg.has("async")
@@ -1137,7 +1258,7 @@ def run_step(env: Env, built: Built, cfg: LoopCfg, which: str) -> StepResult:
                 notes["own_timeline_start"] = len(own.events) if own is not None else 0
             r = built.target.execute(func, **kwargs)
         if is_async:
-            r = asyncio.run(r) if env.__dict__.get("real_loop") else drive(r, env)
+            r = run_virtual(r, env) if env.__dict__.get("real_loop") else drive(r, env)
     except BaseException as e:  # noqa: BLE001 - we are the top of the stack on purpose
         if isinstance(e, (StopDriver, AssertionError)):
             raise
@@ -1183,6 +1304,8 @@ class CaseRun:
     script: list
     post_probe: str | None = None    # C08's observation: after recovery_timeout_s, is the next call admitted?
     nested: list = field(default_factory=list)   # the nested calls made by re-entrant operations, as cases
+    stalled: bool = False         # sync, REAL-time attempt timeout of 0.3 s: an operation that was not meant to hang
+                                  # was abandoned by the library (the machine stalled) — the case says nothing
 
 
 def run_case(case_id: str, cfg: LoopCfg, script: list, oracle, wall_seed: int = 0,
@@ -1273,4 +1396,5 @@ def run_case(case_id: str, cfg: LoopCfg, script: list, oracle, wall_seed: int = 
             nl += [f"r 0 {sr.res}", "end"]
             nfinal = f"now={t1} budget={budget_state_tok(None)} breaker={breaker_state_tok(None)}"
             nested.append(CaseRun("\n".join(nl) + "\n", [sr], ex, nfinal, ncfg, [("call",)], None))
-    return CaseRun("\n".join(lines) + "\n", results, env.exchanges, final, cfg, script, post, nested)
+    stalled = bool(_STRAY_TIMEOUT[0] and env.__dict__.get("timeout_fires") and not env.__dict__.get("real_loop"))
+    return CaseRun("\n".join(lines) + "\n", results, env.exchanges, final, cfg, script, post, nested, stalled)
